@@ -17,7 +17,7 @@ from harness.tlc import make_cfg, run_tlc
 
 ALPHA = {97, 32, 34, 39, 38, 60, 91, 93, 233}  # a space " ' & < [ ] e-acute
 EXTRA = ["x y", 'say "hi"', "it's", 'both \' and "', "a&b", "<tag>", "[1]", "été", "中文", "a=b", "a/b", '""', "'", '"', "\U0001F600", "a" * 40 + '"',
-         "0", "1", "2024", "x' or '1'='1", "o'.clock", "a'.b'.c", "q''.r", "dot.ted", ".lead", "x.'y", "$A.$B", "end'"]     # a name made of digits is a name, not a position; a name is never query syntax
+         "0", "1", "2024", "x' or '1'='1", "o'.clock", "a'.b'.c", "q''.r", "dot.ted", ".lead", "x.'y", "$A.$B", "end'", "no\u00a0break", "soft\u00adhyphen", "zero\u200bwidth", "pua\ue000x", "back\\slash", "caf\u00e9_\u00a0"]     # a name made of digits is a name, not a position; a name is never query syntax
 
 
 STYLE_OF: dict = {}     # table style name -> the table it was given to
